@@ -101,10 +101,17 @@ def main():
                 bad += not ok
         else:
             also = [p for p in a.also.split(',') if p]
+            rpath = os.path.join(SEEDED, 'RESULTS.json')
+            results = json.load(open(rpath)) if os.path.exists(rpath) else {}
             for sid, res in ex.map(lambda s: detect(s, None if not also else [json.load(open(os.path.join(SEEDED, s, 'meta.json')))['property']] + also, a.tier), ids):
                 for p, status, info in res:
                     print('%-28s %-4s %-12s %s' % (sid, p, status, info))
                     bad += status != 'caught'
+                p, status, info = res[0]
+                m = re.search(r'oracle=(\S+) mech=(\{.*?\}) count', info)
+                results[sid] = {'status': status, 'tier': a.tier,
+                                'caught_by': ('%s %s' % (m.group(1), m.group(2))) if m else status}
+            json.dump(results, open(rpath, 'w'), indent=1, sort_keys=True)
     sys.exit(1 if bad else 0)
 
 
